@@ -226,7 +226,7 @@ public:
     switch (r.Weighted(w)) {
     case 0: op.kind = "Resolve"; GenPieces(c, op, true); return true;
     case 1:
-      if (r.Pct(45)) { op.kind = "Insert"; op.s = { r.Pct(65) ? GenGoodEntity(r) : r.Pct(80) ? GenGoodCollab(r) : GenBad(r) }; op.n = { r.Range(0, len) }; }
+      if (r.Pct(45)) { op.kind = "Insert"; op.s = { r.Pct(65) ? GenGoodEntity(r) : r.Pct(80) ? GenGoodCollab(r) : GenBad(r) }; op.n = { r.Range(0, len), r.Pct(25), static_cast<int64_t>(r.Below(16)) }; }
       else if (r.Pct(85)) { op.kind = "EraseIn"; const int a = r.Range(0, len); op.n = { a, r.Pct(15) ? a : r.Range(a, std::min(len, a + 12)), r.Pct(40) }; }
       else { op.kind = "FirstIn"; const int a = r.Range(0, len); op.n = { a, r.Range(a, len) }; }
       if (mgrLoaded && !mgr->get().empty() && r.Pct(35) && op.kind != "FirstIn") {   // aim at reference borders
@@ -408,6 +408,8 @@ public:
     else if (k == "Insert") {
       if (!mgrLoaded) return;
       auto ref = Reference::Parse(op.S(0)); if (!ref.IsValid()) { c.Probe("insert_invalid_ref_skipped"); return; }
+      // a reference object that already carries a resolution (copied out of the manager, possibly resolved before the context changed)
+      if (op.N(1) == 1 && !mgr->get().empty()) { ref = mgr->get()[static_cast<size_t>(op.N(2)) % mgr->get().size()]; c.Probe("insert_copy_of_resolved_reference"); }
       const int pos = static_cast<int>(op.N(0)) % (static_cast<int>(shadow.size()) + 1);
       const std::string before = RefsDump(mgr->get());
       bool touches = false; for (auto& r : mgr->get()) if (pos >= r.position.start && pos <= r.position.finish) touches = true;
@@ -418,6 +420,11 @@ public:
         const auto ins = Cps(res->resolvedText);
         if (res->position.start != pos) { c.Fail(prop, "alignment", k + "/inserted-position", "inserted reference placed at " + std::to_string(res->position.start) + " not " + std::to_string(pos)); return; }
         shadow.insert(shadow.begin() + pos, ins.begin(), ins.end());
+        if (res->IsEntity()) {   // what is shown for the inserted reference is its resolution in the CURRENT context
+          c.Oracle("inserted_resolution");
+          Reference again = Reference::Parse(res->ToString());
+          if (again.IsValid() && again.IsEntity()) { again.ResolveEntity(ctx); if (again.resolvedText != res->resolvedText) { c.Fail(prop, "inserted_resolution", k + (op.N(1) == 1 ? "/copy" : ""), "inserted " + res->ToString() + " shows '" + res->resolvedText + "' but resolves to '" + again.resolvedText + "' in the current context"); return; } }
+        }
         if (!CheckAligned(c, k)) return;
       }
     }
